@@ -140,9 +140,12 @@ def _unlocked_mention(node, lock, fields):
     """Does `node` mention self.<field> anywhere that is NOT inside the body of a `with self.<lock>:`?"""
     if isinstance(node, ast.With) and any(_is_self_attr(i.context_expr, [lock]) for i in node.items):
         return any(_unlocked_mention(i.context_expr, lock, fields) for i in node.items)
-    if (isinstance(node, ast.Attribute) and isinstance(node.value, ast.Name) and node.value.id == 'self'
-            and node.attr in fields):
+    if isinstance(node, ast.Attribute) and node.attr in fields:
+        # the guarded fields are private: reaching them through any object (self, another instance in a classmethod,
+        # getattr-free aliasing) outside the lock is an unlocked access
         return True
+    if isinstance(node, ast.Constant) and node.value in fields:
+        return True     # getattr(self, '_dataset') and the like
     return any(_unlocked_mention(c, lock, fields) for c in ast.iter_child_nodes(node))
 
 
